@@ -52,6 +52,8 @@ CHECKS = {
             "(converter) the text of whatever the visitor emits is the reading-order text, strip_empty and collapse keep text, the writer's output lexes back to it; "
             "(end to end, C01_end_to_end) for every source and options whose style map in force has no `!`, no :separator and plain names, the text of the HTML convert_to_html returns "
             "= rendering of the body's live items ([k] at the k-th note reference) ++ notes ++ comments, the notes being those the body references, in order. "
+            "(whole text, C01_html_text_from_xml) with the notes and comments parts in the domain too, the text of the HTML is `expected_text`, computed from the XML of the three parts alone - body, then the referenced notes' live items each followed by the back-link arrow, "
+            "then the comments list as a work queue of the rendered comment references - with nothing existential left; every comment read carries the live items of its XML (C01_comments_items); "
             "(raw text, C01_raw_text) for every source whose body is in the domain and has no vertical-merge continuation cells, extract_raw_text returns exactly the expansion of the body's live items with "
             "the END of every logical paragraph marked (Proofs/RawSpec.v): characters as they are, tab elements as the character 9, references nothing, every paragraph end exactly two newlines, placed after the paragraph's own "
             "content and before the text-box paragraphs that follow it; forgetting the marks gives the same live items the HTML theorem speaks of (C01_raw_text_same_body). "
@@ -71,11 +73,17 @@ CHECKS = {
             "(missing required attributes, unresolved ids, unbalanced fldChar, non-numeric values, broken package structure); never LineParseError, never because of a style map, "
             "a missing mc:Fallback or a dangling numStyleLink, and never because the model's own recursion fuel ran out (body_read_all_fuel). The model is tied to the code on a valid stream (no exception allowed, html/markdown/raw) and a malformed stream "
             "(model Crash <=> implementation raises).",
-            BASE_NOTE + "Python's recursion limit, memory and expat errors are not modelled; the link from the property's domain description to the crash codes is by the documented table in Proofs/ReaderSpec.v.in.",
-            "DESIGN.md §5 C05"),
+            BASE_NOTE + "POSITIVE direction proved as well: `supported` (Proofs/SupportedSpec.v) is the property's domain as a boolean on the package's XML alone, and C05_supported_converts / _markdown / _extracts state "
+            "supported s = true -> the entry point returns, for every option combination - all 23 failure codes discharged, no residual hypothesis. `supported` is evaluated in Coq on both streams: every valid-stream package satisfies it, "
+            "no malformed one does, and `supported` with a raising implementation would be reported with the package as the failing input. One clause is a model artifact and is named as such: the model's comments loop has fuel 1000, "
+            "so `supported` bounds the number of rendered comment references (the implementation has no such bound); numStyleLink acyclicity is stated through the numbering lookup itself. "
+            "Python's recursion limit, memory and expat errors are not modelled.",
+            "DESIGN.md §5 C05, §15"),
     "C09": ("proof",
             "Coq proof, unbounded in rows and columns, that the vMerge sweep reproduces the document grid under HTML table layout + exhaustive tilings correspondence",
             "Theorem for every well-formed tiling encoding of any size: html_layout (row_spans rows) = Some (doc_grid rows): no overlap, no gap, every position owned by the right cell; "
+            "the reader model's own sweep over document elements is proved EQUAL to that abstract sweep (C09_reader_sweep_refines: same cells, same order, own children and colspan, the abstract rowspans; no extras, no messages), "
+            "so the grid theorem holds for what the reader returns (C09_reader_table_layout); "
             "plus the tr/th/td/thead/tbody/colspan/rowspan structure equations of the converter. The sweep model is compared in Coq with body_xml's calculate_row_spans on all tilings up to 3x3 (4x4 thorough) and random ones up to 6x6.",
             BASE_NOTE + "Domain: merges do not cross the header boundary; rows and cells are direct children.",
             "DESIGN.md §5 C09"),
